@@ -437,6 +437,24 @@ def run(sh):
             if unit_val(a[1:], {"%": 1, "em": 1, "vw": 1, "rem": 1})[0] == unit_val(b[1:], {})[0]:
                 continue
             bads.append(rng.choice(["calc(%s + %s)", "calc(%s - %s)", "min(%s, %s)", "max(%s, %s)", "clamp(%s, %s, 1px)", "calc((%s + %s) * 2)"]) % (a, b))
+        # n-ary family: min/max/clamp with two to four arguments of which exactly two are provably incompatible (different
+        # real dimensions), at any positions, next to arguments that are compatible with anything (%, relative lengths only
+        # beside lengths, unknown units) -- every pair has to be looked at, not only pairs with the first argument
+        DIM = {"length": ["1px", "2in", "3cm"], "angle": ["3deg", "1turn"], "time": ["4s", "5ms"], "frequency": ["2Hz"], "resolution": ["2dppx"]}
+        for _ in range(16):
+            d1, d2 = rng.sample(sorted(DIM), 2)
+            a, b = rng.choice(DIM[d1]), rng.choice(DIM[d2])
+            fn = rng.choice(["min", "max", "clamp"])
+            n_args = 3 if fn == "clamp" else rng.range(2, 4)
+            # (no unitless arguments: next to numbers with units they select the legacy min()/max() functions, in which
+            # a unitless number is comparable with everything -- another code path with other rules)
+            neutral = ["10%", "2foo", "10%", "1em" if "length" in (d1, d2) else "3%"]
+            args = [a, b] + [rng.choice(neutral) for _ in range(n_args - 2)]
+            rng.shuffle(args)
+            e = "%s(%s)" % (fn, ", ".join(args))
+            if rng.chance(0.25):
+                e = rng.choice(["calc(1%% + %s)", "max(%s, 1%%)", "calc(%s * 2)"]) % e
+            bads.append(e)
         rs = sh.w.batch([{"text": "a { b: %s; }" % e} for e in bads])
         for e, r in zip(bads, rs):
             sh.ev()
